@@ -1,19 +1,23 @@
-(* Model of the EXPRESSION grammar of /repo/src/parse.rs (the recursive-descent parser of the
-   real compiler), over the tokens of Front/Scan.v.  Definitions only; the proofs are in
-   Front/ParseExprProofs.v.
+(* Model of the EXPRESSION, STATEMENT and PATTERN grammar of /repo/src/parse.rs (the recursive-
+   descent parser of the real compiler), over the tokens of Front/Scan.v.  Definitions only;
+   the proofs are in Front/ParseExprProofs.v.
 
    MIRRORED, function by function (same call structure, same loops, same order of tests):
-     parse_expr, parse_short_circuiting_or, parse_short_circuiting_and, parse_equality,
-     parse_comparison (with the desugaring  x <= y  ~>  !(x > y),  x >= y  ~>  !(x < y)  of the
-     current code: both operands occur once), parse_or, parse_xor, parse_and, parse_shift,
-     parse_term, parse_factor, parse_cast (+ the identifier arm of parse_type),
-     parse_if_or_match (the `if` / `else if` / `else` part), parse_unary, parse_primary (with its
-     postfix loop `[..]` `.0` `.field`), the arms of parse_literal that parse_primary reaches
-     (true / false, numbers, `(e)`, `()`, tuples), parse_block_as_expr / parse_stmts /
-     parse_stmts_of_block / parse_stmt for a block that consists of ONE expression statement.
+     parse_expr (incl. the block `{ .. }`), parse_short_circuiting_or, parse_short_circuiting_and,
+     parse_equality, parse_comparison (with the desugaring  x <= y  ~>  !(x > y),
+     x >= y  ~>  !(x < y): both operands occur once), parse_or, parse_xor, parse_and, parse_shift,
+     parse_term, parse_factor, parse_cast, parse_type (scalar and named types, tuple types, array
+     types with a literal or a named size), parse_if_or_match (`if` / `else if` / `else` AND
+     `match` with parse_match_clause), parse_pattern (all forms), parse_unary, parse_primary
+     (with its postfix loop `[..]` `.0` `.field`), the arms of parse_literal that parse_primary
+     reaches (true / false, numbers, `(e)`, `()`, tuples), parse_stmt (`let`, `let mut`, `for`,
+     assignments `x.acc = e` and the compound assignments `x.acc op= e` with their DESUGARING
+     into `x.acc = x.acc op e`, expression statements with the `;` rules), parse_stmts (the
+     struct-literal flag), parse_stmts_of_block (the loop), parse_block_as_expr.
    The parser state is the remaining token list and the flag [struct_literals_allowed]; the
    flag is threaded as STATE and saved / cleared / restored exactly where the Rust code does
-   it (around the condition of an `if`; set inside the braces of a block by parse_stmts).
+   it (around the condition of an `if`, the scrutinee of a `match`, the collection of a `for`;
+   set inside the braces of a block by parse_stmts).
 
    SIMPLIFIED:
    - source locations (MetaInfo) are dropped from the tree;
@@ -23,11 +27,13 @@
    - `next_matches_one_of(&ops)` (a loop over the options) is a look-up on the next token;
    - every call `f(args)` is [UFnCall]: BuiltInFnCall::try_from_ident_args (which turns some
      names into built-in calls) is not modelled;
-   - OUTSIDE THE MODEL ([POutside], with the construct that was met): `match`; blocks as
-     expressions `{ .. }`; blocks with more than one statement, `let`, `for`, assignments;
-     struct literals (but the TEST that decides whether `ident {` is a struct literal, which
-     reads the flag, IS modelled), enum literals `A::B`, array literals `[..]`, ranges `a..b`,
-     tuple / array types after `as`.
+   - the body of a `for` loop (`expect({); parse_stmts(); expect(})`) is obtained by calling
+     parse_expr one level down on the `{`, which performs exactly these three steps and returns
+     the statements in a Block: this keeps the recursion through the single parameter [pe];
+   - OUTSIDE THE MODEL ([POutside], with the construct that was met): struct literals (but the
+     TEST that decides whether `ident {` is a struct literal, which reads the flag, IS modelled),
+     enum literals `A::B`, array literals `[..]`, ranges `a..b` as expressions, array types whose
+     size is `const { .. }`.
    Recursion: explicit fuel, one unit per nesting level of parse_expr and per loop iteration;
    [PNoFuel] is never a Rust behaviour. *)
 From GV Require Import Base.Util Front.Scan.
@@ -43,12 +49,29 @@ Inductive bin_op :=
 | BAdd | BSub | BMul | BDiv | BMod | BBitAnd | BBitXor | BBitOr | BGreaterThan | BLessThan
 | BEq | BNotEq | BShiftLeft | BShiftRight | BShortCircuitAnd | BShortCircuitOr.
 
-(* the types parse_type produces from an identifier *)
+(* the types parse_type produces *)
 Inductive utype :=
 | UTBool | UTUnsigned (t : unsigned_num_type) | UTSigned (t : signed_num_type)
-| UTNamed (s : list N).     (* Type::UntypedTopLevelDefinition *)
+| UTNamed (s : list N)      (* Type::UntypedTopLevelDefinition *)
+| UTTuple (ts : list utype)
+| UTArray (t : utype) (n : N)
+| UTArrayConst (t : utype) (c : list N).
 
-(* ExprEnum, the forms of the model *)
+(* PatternEnum *)
+Inductive upattern :=
+| PIdentifier (s : list N)             (* also `_` *)
+| PTrue | PFalse
+| PNumUnsigned (n : N) (t : unsigned_num_type)
+| PNumSigned (z : Z) (t : signed_num_type)
+| PTuple (ps : list upattern)
+| PStruct (name : list N) (fields : list (list N * upattern))                  (* fields sorted by name *)
+| PStructIgnoreRemaining (name : list N) (fields : list (list N * upattern))
+| PEnumUnit (e v : list N)
+| PEnumTuple (e v : list N) (ps : list upattern)
+| PUnsignedInclusiveRange (lo hi : N) (t : unsigned_num_type)
+| PSignedInclusiveRange (lo hi : Z) (t : signed_num_type).
+
+(* ExprEnum, StmtEnum, Accessor: the forms of the model *)
 Inductive uexpr :=
 | UTrue | UFalse
 | UNumUnsigned (n : N) (t : unsigned_num_type)
@@ -62,7 +85,19 @@ Inductive uexpr :=
 | UOp (o : bin_op) (l r : uexpr)
 | UFnCall (f : list N) (args : list uexpr)
 | UIf (c t e : uexpr)
-| UCast (ty : utype) (e : uexpr).
+| UCast (ty : utype) (e : uexpr)
+| UBlock (b : list ustmt)
+| UMatch (e : uexpr) (arms : list (upattern * uexpr))
+with ustmt :=
+| SLet (p : upattern) (ty : option utype) (e : uexpr)
+| SLetMut (x : list N) (ty : option utype) (e : uexpr)
+| SVarAssign (x : list N) (accs : list uaccessor) (e : uexpr)
+| SForEach (p : upattern) (e : uexpr) (body : list ustmt)
+| SExpr (e : uexpr)
+with uaccessor :=
+| AArray (index : uexpr)
+| ATuple (index : N)
+| AStruct (field : list N).
 
 (* ------------------------------------------------------------------ the parser state *)
 
@@ -143,13 +178,53 @@ Definition type_of_name (s : list N) : utype :=
   else if list_eqb s s_i64 then UTSigned I64
   else UTNamed s.
 
-Definition parse_type (s : pstate) : pres utype :=
-  if peek TLeftParen s || peek TLeftBracket s then POutside OType
-  else
-    match toks s with
-    | Token (TIdentifier id) _ :: r => POk (type_of_name id) (PState r (sla s))   (* expect_identifier *)
-    | _ => PErr
-    end.
+(* fn expect_identifier *)
+Definition expect_identifier {A} (s : pstate) (k : list N -> pstate -> pres A) : pres A :=
+  match toks s with
+  | Token (TIdentifier id) _ :: r => k id (PState r (sla s))
+  | _ => PErr
+  end.
+
+(* `while next_matches(Comma) { items.push(item()?) }` ([acc] in reverse; no trailing comma) *)
+Fixpoint strict_comma_loop {A} (item : pstate -> pres A) (n : nat) (acc : list A) (s : pstate) : pres (list A) :=
+  match n with
+  | O => PNoFuel
+  | S n' =>
+      match next_matches TComma s with
+      | Some s1 => bindp (item s1) (fun a s2 => strict_comma_loop item n' (a :: acc) s2)
+      | None => POk (rev acc) s
+      end
+  end.
+
+(* fn parse_type *)
+Fixpoint parse_type (n : nat) (s : pstate) : pres utype :=
+  match n with
+  | O => PNoFuel
+  | S n' =>
+      match next_matches TLeftParen s with
+      | Some s1 =>
+          bindp (if negb (peek TRightParen s1)
+                 then bindp (parse_type n' s1) (fun ty s2 => strict_comma_loop (parse_type n') n' [ty] s2)
+                 else POk [] s1)
+            (fun fields s2 => expect TRightParen s2 (fun s3 => POk (UTTuple fields) s3))
+      | None =>
+          match next_matches TLeftBracket s with
+          | Some s1 =>
+              bindp (parse_type n' s1) (fun ty s2 =>
+                expect TSemicolon s2 (fun s3 =>
+                  match toks s3 with
+                  | Token (TUnsignedNum k UnspecifiedU) _ :: r
+                  | Token (TUnsignedNum k Usize) _ :: r =>
+                      expect TRightBracket (PState r (sla s3)) (fun s4 => POk (UTArray ty k) s4)
+                  | Token (TIdentifier c) _ :: r =>
+                      expect TRightBracket (PState r (sla s3)) (fun s4 => POk (UTArrayConst ty c) s4)
+                  | Token TKeywordConst _ :: _ => POutside OType
+                  | _ => PErr
+                  end))
+          | None => expect_identifier s (fun id s1 => POk (type_of_name id) s1)
+          end
+      end
+  end.
 
 (* the operator tables of the binary levels: token -> how the node is built *)
 Definition opt := token_enum -> option (uexpr -> uexpr -> uexpr).
@@ -202,22 +277,57 @@ Section BinLevel.
     bindp (sub n s) (fun x s1 => binloop n x s1).
 End BinLevel.
 
-(* is the expression an assignment target (fn accessors in parse_stmt)? *)
-Fixpoint is_accessor_chain (e : uexpr) : bool :=
+(* fn accessors in parse_stmt: is the expression an assignment target? *)
+Fixpoint accessors (e : uexpr) : option (list N * list uaccessor) :=
   match e with
-  | UIdentifier _ => true
-  | UArrayAccess a _ => is_accessor_chain a
-  | UTupleAccess a _ => is_accessor_chain a
-  | UStructAccess a _ => is_accessor_chain a
-  | _ => false
+  | UIdentifier id => Some (id, [])
+  | UArrayAccess a i =>
+      match accessors a with Some (id, acc) => Some (id, (acc ++ [AArray i])%list) | None => None end
+  | UTupleAccess a i =>
+      match accessors a with Some (id, acc) => Some (id, (acc ++ [ATuple i])%list) | None => None end
+  | UStructAccess a f =>
+      match accessors a with Some (id, acc) => Some (id, (acc ++ [AStruct f])%list) | None => None end
+  | _ => None
   end.
 
-Definition is_assign_op (t : token_enum) : bool :=
+(* the compound assignment operators *)
+Definition assign_op (t : token_enum) : option bin_op :=
   match t with
-  | TAddAssign | TSubAssign | TMulAssign | TDivAssign | TRemAssign | TBitXorAssign
-  | TBitAndAssign | TBitOrAssign | TShrAssign | TShlAssign => true
-  | _ => false
+  | TAddAssign => Some BAdd | TSubAssign => Some BSub | TMulAssign => Some BMul
+  | TDivAssign => Some BDiv | TRemAssign => Some BMod | TBitXorAssign => Some BBitXor
+  | TBitAndAssign => Some BBitAnd | TBitOrAssign => Some BBitOr
+  | TShrAssign => Some BShiftRight | TShlAssign => Some BShiftLeft
+  | _ => None
   end.
+
+(* `let mut target = Identifier(x); for access in accessors { target = Access(target, ..) }`:
+   the target of `x.acc op= e` read as an expression (index expressions are CLONED) *)
+Definition target_expr (x : list N) (accs : list uaccessor) : uexpr :=
+  fold_left (fun target a =>
+               match a with
+               | AArray i => UArrayAccess target i
+               | ATuple i => UTupleAccess target i
+               | AStruct f => UStructAccess target f
+               end) accs (UIdentifier x).
+
+(* `if !peek(RightBrace) && !peek(Comma) { expect(Semicolon)? }` *)
+Definition opt_semicolon {A} (s : pstate) (k : pstate -> pres A) : pres A :=
+  if negb (peek TRightBrace s) && negb (peek TComma s) then expect TSemicolon s k else k s.
+
+(* fields.sort_by(|(f1, _), (f2, _)| f1.cmp(f2)): a stable sort on the names (byte strings) *)
+Fixpoint name_ltb (a b : list N) : bool :=
+  match a, b with
+  | _, [] => false
+  | [], _ :: _ => true
+  | x :: a', y :: b' => (x <? y) || ((x =? y) && name_ltb a' b')
+  end.
+Fixpoint insert_field {A} (f : list N * A) (l : list (list N * A)) : list (list N * A) :=
+  match l with
+  | [] => [f]
+  | g :: r => if name_ltb (fst f) (fst g) then f :: l else g :: insert_field f r
+  end.
+Definition sort_fields {A} (l : list (list N * A)) : list (list N * A) :=
+  fold_left (fun acc f => insert_field f acc) l [].
 
 (* the loop condition of parse_stmts_of_block *)
 Definition block_ends (s : pstate) : bool :=
@@ -233,6 +343,121 @@ Definition retype_index (index : uexpr) : uexpr :=
   match index with
   | UNumUnsigned i UnspecifiedU => UNumUnsigned i Usize
   | _ => index
+  end.
+
+(* `items.push(item()?); while next_matches(Comma) { if peek(close) { break } items.push(item()?) }`
+   ([acc] in reverse) *)
+Fixpoint sep_loop {A} (item : pstate -> pres A) (close : token_enum) (n : nat) (acc : list A) (s : pstate)
+  : pres (list A) :=
+  match n with
+  | O => PNoFuel
+  | S n' =>
+      match next_matches TComma s with
+      | Some s1 =>
+          if peek close s1 then POk (rev acc) s1
+          else bindp (item s1) (fun e s2 => sep_loop item close n' (e :: acc) s2)
+      | None => POk (rev acc) s
+      end
+  end.
+
+(* `(p, .., p)` after the `(`: the fields of a tuple / enum-tuple pattern *)
+Definition pattern_fields (pp : pstate -> pres upattern) (n : nat) (s : pstate) : pres (list upattern) :=
+  bindp (if negb (peek TRightParen s) then bindp (pp s) (fun p s1 => sep_loop pp TRightParen n [p] s1)
+         else POk [] s)
+    (fun fields s1 => expect TRightParen s1 (fun s2 => POk fields s2)).
+
+(* one field of a struct pattern: `name` or `name: pattern` *)
+Definition pattern_field (pp : pstate -> pres upattern) (s : pstate) : pres (list N * upattern) :=
+  expect_identifier s (fun fname s1 =>
+    if peek TComma s1 || peek TRightBrace s1 then POk (fname, PIdentifier fname) s1
+    else expect TColon s1 (fun s2 => bindp (pp s2) (fun p s3 => POk (fname, p) s3))).
+
+(* `while next_matches(Comma) { if peek(}) { break } if next_matches(..) { ignore = true; break } field }` *)
+Fixpoint field_loop (pp : pstate -> pres upattern) (n : nat) (acc : list (list N * upattern)) (s : pstate)
+  : pres (list (list N * upattern) * bool) :=
+  match n with
+  | O => PNoFuel
+  | S n' =>
+      match next_matches TComma s with
+      | Some s1 =>
+          if peek TRightBrace s1 then POk (rev acc, false) s1
+          else match next_matches TDoubleDot s1 with
+               | Some s2 => POk (rev acc, true) s2
+               | None => bindp (pattern_field pp s1) (fun f s2 => field_loop pp n' (f :: acc) s2)
+               end
+      | None => POk (rev acc, false) s
+      end
+  end.
+
+(* i64::MIN: `range_end.checked_sub(1)` is None there *)
+Definition i64_min : Z := (-9223372036854775808)%Z.
+
+(* fn parse_pattern *)
+Fixpoint parse_pattern (n : nat) (s : pstate) : pres upattern :=
+  match n with
+  | O => PNoFuel
+  | S n' =>
+      match toks s with
+      | Token (TIdentifier id) _ :: r =>
+          let s1 := PState r (sla s) in
+          if list_eqb id s_true then POk PTrue s1
+          else if list_eqb id s_false then POk PFalse s1
+          else
+            match next_matches TDoubleColon s1 with
+            | Some s2 =>
+                expect_identifier s2 (fun variant s3 =>
+                  if peek TLeftParen s3 then
+                    expect TLeftParen s3 (fun s4 =>
+                      bindp (pattern_fields (parse_pattern n') n' s4) (fun fields s5 =>
+                        POk (PEnumTuple id variant fields) s5))
+                  else POk (PEnumUnit id variant) s3)
+            | None =>
+                match next_matches TLeftBrace s1 with
+                | Some s2 =>
+                    bindp (if negb (peek TRightBrace s2)
+                           then bindp (pattern_field (parse_pattern n') s2) (fun f s3 =>
+                                  field_loop (parse_pattern n') n' [f] s3)
+                           else POk ([], false) s2)
+                      (fun fi s3 =>
+                         expect TRightBrace s3 (fun s4 =>
+                           if snd fi then POk (PStructIgnoreRemaining id (sort_fields (fst fi))) s4
+                           else POk (PStruct id (sort_fields (fst fi))) s4))
+                | None => POk (PIdentifier id) s1
+                end
+            end
+      | Token (TUnsignedNum k ty) _ :: r =>
+          let s1 := PState r (sla s) in
+          if peek TDoubleDot s1 || peek TDoubleDotEquals s1 then
+            let is_inclusive := peek TDoubleDotEquals s1 in
+            match toks s1 with
+            | _ :: Token (TUnsignedNum range_end ty_end) _ :: r2 =>
+                if unsigned_num_type_eq_dec ty ty_end then
+                  if is_inclusive then POk (PUnsignedInclusiveRange k range_end ty) (PState r2 (sla s))
+                  else if range_end =? 0 then PErr       (* checked_sub(1): an empty range *)
+                  else POk (PUnsignedInclusiveRange k (range_end - 1) ty) (PState r2 (sla s))
+                else PErr
+            | _ => PErr
+            end
+          else POk (PNumUnsigned k ty) s1
+      | Token (TSignedNum k ty) _ :: r =>
+          let s1 := PState r (sla s) in
+          if peek TDoubleDot s1 || peek TDoubleDotEquals s1 then
+            let is_inclusive := peek TDoubleDotEquals s1 in
+            match toks s1 with
+            | _ :: Token (TSignedNum range_end ty_end) _ :: r2 =>
+                if signed_num_type_eq_dec ty ty_end then
+                  if is_inclusive then POk (PSignedInclusiveRange k range_end ty) (PState r2 (sla s))
+                  else if (range_end =? i64_min)%Z then PErr
+                  else POk (PSignedInclusiveRange k (range_end - 1) ty) (PState r2 (sla s))
+                else PErr
+            | _ => PErr
+            end
+          else POk (PNumSigned k ty) s1
+      | Token TLeftParen _ :: r =>
+          bindp (pattern_fields (parse_pattern n') n' (PState r (sla s))) (fun fields s1 =>
+            POk (PTuple fields) s1)
+      | _ => PErr
+      end
   end.
 
 Section WithExpr.
@@ -345,40 +570,134 @@ Section WithExpr.
         end
     end.
 
-  (* fn parse_stmt for an expression statement; `let`, `for`, assignments: outside *)
-  Definition parse_stmt_expr (s : pstate) : pres uexpr :=
-    if peek TKeywordLet s || peek TKeywordFor s then POutside OStatements
-    else
-      let is_conditional_or_block := peek TKeywordIf s || peek TKeywordMatch s || peek TLeftBrace s in
-      bindp (pe s) (fun e s1 =>
-        if is_accessor_chain e then
-          if peek TEq s1 then POutside OStatements
-          else if (match toks s1 with Token t _ :: _ => is_assign_op t | [] => false end) then POutside OStatements
-          else if negb (peek TRightBrace s1) && negb (peek TComma s1)
-               then expect TSemicolon s1 (fun s2 => POk e s2) else POk e s1
-        else
-          if negb is_conditional_or_block && negb (peek TRightBrace s1) && negb (peek TComma s1)
-          then expect TSemicolon s1 (fun s2 => POk e s2) else POk e s1).
+  (* `: <type>`? *)
+  Definition opt_type {A} (n : nat) (s : pstate) (k : option utype -> pstate -> pres A) : pres A :=
+    match next_matches TColon s with
+    | Some s1 => bindp (parse_type n s1) (fun ty s2 => k (Some ty) s2)
+    | None => k None s
+    end.
 
-  (* fn parse_stmts_of_block, for at most one statement *)
-  Definition parse_stmts_of_block (s : pstate) : pres (option uexpr) :=
-    if block_ends s then POk None s
-    else bindp (parse_stmt_expr s) (fun e s1 =>
-           if block_ends s1 then POk (Some e) s1 else POutside OStatements).
+  (* fn parse_stmt *)
+  Definition parse_stmt (n : nat) (s : pstate) : pres ustmt :=
+    match next_matches TKeywordLet s with
+    | Some s1 =>
+        match next_matches TKeywordMut s1 with
+        | Some s2 =>
+            (* let mut <identifier> = <binding>; *)
+            expect_identifier s2 (fun identifier s3 =>
+              opt_type n s3 (fun ty s4 =>
+                expect TEq s4 (fun s5 =>
+                  bindp (pe s5) (fun binding s6 =>
+                    expect TSemicolon s6 (fun s7 => POk (SLetMut identifier ty binding) s7)))))
+        | None =>
+            (* let <pattern> = <binding>; *)
+            bindp (parse_pattern n s1) (fun pattern s3 =>
+              opt_type n s3 (fun ty s4 =>
+                expect TEq s4 (fun s5 =>
+                  bindp (pe s5) (fun binding s6 =>
+                    expect TSemicolon s6 (fun s7 => POk (SLet pattern ty binding) s7)))))
+        end
+    | None =>
+        match next_matches TKeywordFor s with
+        | Some s1 =>
+            (* for <pattern> in <binding> { <body> } *)
+            bindp (parse_pattern n s1) (fun pattern s2 =>
+              expect TKeywordIn s2 (fun s3 =>
+                let struct_literals_allowed := sla s3 in
+                bindp (pe (set_sla false s3)) (fun binding s4 =>
+                  let s5 := set_sla struct_literals_allowed s4 in
+                  (* expect({); parse_stmts(); expect(}): parse_expr on the `{` *)
+                  if peek TLeftBrace s5 then
+                    bindp (pe s5) (fun blk s6 =>
+                      match blk with
+                      | UBlock loop_body => POk (SForEach pattern binding loop_body) s6
+                      | _ => PErr     (* unreachable *)
+                      end)
+                  else PErr)))
+        | None =>
+            let is_conditional_or_block := peek TKeywordIf s || peek TKeywordMatch s || peek TLeftBrace s in
+            bindp (pe s) (fun e s1 =>
+              match accessors e with
+              | Some (identifier, accs) =>
+                  match next_matches TEq s1 with
+                  | Some s2 =>
+                      bindp (pe s2) (fun value s3 =>
+                        opt_semicolon s3 (fun s4 => POk (SVarAssign identifier accs value) s4))
+                  | None =>
+                      match toks s1 with
+                      | Token next _ :: r =>
+                          match assign_op next with
+                          | Some op =>
+                              bindp (pe (PState r (sla s1))) (fun value s3 =>
+                                opt_semicolon s3 (fun s4 =>
+                                  (* x.acc op= value  ~>  x.acc = x.acc op value *)
+                                  POk (SVarAssign identifier accs (UOp op (target_expr identifier accs) value)) s4))
+                          | None => opt_semicolon s1 (fun s2 => POk (SExpr e) s2)
+                          end
+                      | [] => opt_semicolon s1 (fun s2 => POk (SExpr e) s2)
+                      end
+                  end
+              | None =>
+                  if negb is_conditional_or_block && negb (peek TRightBrace s1) && negb (peek TComma s1)
+                  then expect TSemicolon s1 (fun s2 => POk (SExpr e) s2) else POk (SExpr e) s1
+              end)
+        end
+    end.
+
+  (* fn parse_stmts_of_block ([acc] in reverse) *)
+  Fixpoint stmts_loop (n : nat) (acc : list ustmt) (s : pstate) : pres (list ustmt) :=
+    match n with
+    | O => PNoFuel
+    | S n' =>
+        if block_ends s then POk (rev acc) s
+        else bindp (parse_stmt n' s) (fun stmt s1 => stmts_loop n' (stmt :: acc) s1)
+    end.
+
+  Definition parse_stmts_of_block (n : nat) (s : pstate) : pres (list ustmt) := stmts_loop n [] s.
 
   (* fn parse_stmts: inside the braces of a block struct literals are allowed again *)
-  Definition parse_stmts (s : pstate) : pres (option uexpr) :=
+  Definition parse_stmts (n : nat) (s : pstate) : pres (list ustmt) :=
     let struct_literals_allowed := sla s in
-    bindp (parse_stmts_of_block (set_sla true s)) (fun stmts s1 =>
+    bindp (parse_stmts_of_block n (set_sla true s)) (fun stmts s1 =>
       POk stmts (set_sla struct_literals_allowed s1)).
 
-  (* fn parse_block_as_expr: one expression statement is that expression, no statement is `()` *)
-  Definition parse_block_as_expr (s : pstate) : pres uexpr :=
-    bindp (parse_stmts s) (fun stmts s1 =>
+  (* fn parse_block_as_expr: exactly one expression statement is that expression, no statement
+     is `()`, anything else a Block *)
+  Definition parse_block_as_expr (n : nat) (s : pstate) : pres uexpr :=
+    bindp (parse_stmts n s) (fun stmts s1 =>
       match stmts with
-      | Some e => POk e s1
-      | None => POk (UTupleLiteral []) s1
+      | [SExpr e] => POk e s1
+      | [] => POk (UTupleLiteral []) s1
+      | _ => POk (UBlock stmts) s1
       end).
+
+  (* fn parse_match_clause: (clause, ends_with_brace) *)
+  Definition parse_match_clause (n : nat) (s : pstate) : pres ((upattern * uexpr) * bool) :=
+    bindp (parse_pattern n s) (fun pattern s1 =>
+      expect TFatArrow s1 (fun s2 =>
+        bindp (parse_stmt n s2) (fun stmt s3 =>
+          let ends_with_brace :=
+            match stmt with
+            | SExpr (UMatch _ _) | SExpr (UBlock _) | SExpr (UIf _ _ _) => true
+            | _ => false
+            end in
+          POk ((pattern, UBlock [stmt]), ends_with_brace) s3))).
+
+  (* `while next_matches(Comma).is_some() || clause_ended_with_brace { if peek(}) || at_end { break } clause }`
+     ([acc] in reverse) *)
+  Fixpoint match_loop (n : nat) (ended_with_brace : bool) (acc : list (upattern * uexpr)) (s : pstate)
+    : pres (list (upattern * uexpr)) :=
+    match n with
+    | O => PNoFuel
+    | S n' =>
+        let go s1 :=
+          if peek TRightBrace s1 || (match toks s1 with [] => true | _ => false end) then POk (rev acc) s1
+          else bindp (parse_match_clause n' s1) (fun ce s2 => match_loop n' (snd ce) (fst ce :: acc) s2) in
+        match next_matches TComma s with
+        | Some s1 => go s1
+        | None => if ended_with_brace then go s else POk (rev acc) s
+        end
+    end.
 
   Fixpoint parse_if_or_match (n : nat) (s : pstate) : pres uexpr :=
     match n with
@@ -390,7 +709,7 @@ Section WithExpr.
             bindp (pe (set_sla false s1)) (fun cond_expr s2 =>
               let s3 := set_sla struct_literals_allowed s2 in
               expect TLeftBrace s3 (fun s4 =>
-                bindp (parse_block_as_expr s4) (fun then_expr s5 =>
+                bindp (parse_block_as_expr n' s4) (fun then_expr s5 =>
                   expect TRightBrace s5 (fun s6 =>
                     match next_matches TKeywordElse s6 with
                     | Some s7 =>
@@ -401,14 +720,24 @@ Section WithExpr.
                             POk (UIf cond_expr then_expr elseif_expr) s8)
                         else
                           expect TLeftBrace s7 (fun s8 =>
-                            bindp (parse_block_as_expr s8) (fun else_expr s9 =>
+                            bindp (parse_block_as_expr n' s8) (fun else_expr s9 =>
                               expect TRightBrace s9 (fun s10 =>
                                 POk (UIf cond_expr then_expr else_expr) s10)))
                     | None => POk (UIf cond_expr then_expr (UTupleLiteral [])) s6
                     end))))
         | None =>
-            if peek TKeywordMatch s then POutside OMatch
-            else parse_unary n' s
+            match next_matches TKeywordMatch s with
+            | Some s1 =>
+                (* match <match_expr> { <clause> * } *)
+                let struct_literals_allowed := sla s1 in
+                bindp (pe (set_sla false s1)) (fun match_expr s2 =>
+                  let s3 := set_sla struct_literals_allowed s2 in
+                  expect TLeftBrace s3 (fun s4 =>
+                    bindp (parse_match_clause n' s4) (fun ce s5 =>
+                      bindp (match_loop n' (snd ce) [fst ce] s5) (fun clauses s6 =>
+                        expect TRightBrace s6 (fun s7 => POk (UMatch match_expr clauses) s7)))))
+            | None => parse_unary n' s
+            end
         end
     end.
 
@@ -418,7 +747,7 @@ Section WithExpr.
     | O => PNoFuel
     | S n' =>
         match next_matches TKeywordAs s with
-        | Some s1 => bindp (parse_type s1) (fun ty s2 => cast_loop n' (UCast ty x) s2)
+        | Some s1 => bindp (parse_type n' s1) (fun ty s2 => cast_loop n' (UCast ty x) s2)
         | None => POk x s
         end
     end.
@@ -440,7 +769,10 @@ Section WithExpr.
   (* fn parse_expr, given parse_expr one level down *)
   Definition parse_expr_body (n : nat) (s : pstate) : pres uexpr :=
     match next_matches TLeftBrace s with
-    | Some _ => POutside OBlockExpr
+    | Some s1 =>
+        (* { ... } *)
+        bindp (parse_stmts n s1) (fun stmts s2 =>
+          expect TRightBrace s2 (fun s3 => POk (UBlock stmts) s3))
     | None => parse_short_circuiting_or n s
     end.
 End WithExpr.
@@ -458,6 +790,16 @@ Definition parse_expr (fuel : nat) (ts : list token) : option (uexpr * list toke
   | POk e s => Some (e, toks s)
   | _ => None
   end.
+
+(* the body of a function: [ts] = the tokens between the braces of `{ .. }` (parse_fn_def:
+   `expect({); let body = parse_stmts()?; expect(})`), struct literals allowed.  The closing
+   brace is put back behind [ts] (the `;` rules of the last statement look at it), expected
+   after the statements, and nothing may follow it *)
+Definition parse_block_text (fuel : nat) (ts : list token) : pres (list ustmt) :=
+  let closing := Token TRightBrace (Meta (0, 0) (0, 0)) in
+  bindp (parse_stmts (parse_expr_st fuel) fuel (PState (ts ++ [closing]) true)) (fun stmts s =>
+    expect TRightBrace s (fun s1 =>
+      match toks s1 with [] => POk stmts s1 | _ => PErr end)).
 
 (* a generous amount of fuel for a token list: every unit of fuel is spent together with a
    token (a loop iteration, a unary operator, a nesting level).  Adequacy is PROVED only for the
